@@ -284,10 +284,10 @@ func (r *run) scenario(x *vs.X) func(end, msg string) error {
 	_ = shared
 	metrics := engine.Metrics{Request: &monitoring.Counter{}, Response: &monitoring.Counter{}, InstanceStart: &monitoring.Counter{}, InstanceFinish: &monitoring.Counter{}}
 	eng := engine.New(nop, metrics, engine.Config{Pools: []engine.InstancePoolConfig{{
-		ID:              "p",
-		Provider:        h.Ammo,
-		Aggregator:      h.Result,
-		NewGun:          newGun,
+		ID:         "p",
+		Provider:   h.Ammo,
+		Aggregator: h.Result,
+		NewGun:     newGun,
 		NewRPSSchedule: func() (core.Schedule, error) {
 			switch c.RPS {
 			case "const":
